@@ -541,15 +541,7 @@ type MemberExpression struct {
 }
 
 func (me *MemberExpression) WriteTo(cw *CodeWriter) {
-	// `1.x` is read as the number "1." followed by x: an integer literal keeps apart from what follows it
-	_, integerObject := me.Object.(*IntegerLiteral)
-	if integerObject {
-		cw.WriteRune('(')
-	}
 	me.Object.WriteTo(cw)
-	if integerObject {
-		cw.WriteRune(')')
-	}
 	cw.WriteLeadingComments(me.Token.LeadingComments)
 	if me.Computed {
 		cw.AddMapping(me.Token.Start)
@@ -557,6 +549,10 @@ func (me *MemberExpression) WriteTo(cw *CodeWriter) {
 		me.Property.WriteTo(cw)
 		cw.WriteRune(']')
 	} else {
+		if _, integerObject := me.Object.(*IntegerLiteral); integerObject {
+			// `1.x` is read as the number "1." followed by x: the dot keeps apart from an integer literal
+			cw.WriteRune(' ')
+		}
 		cw.AddMapping(me.Token.Start)
 		cw.WriteRune('.')
 		me.Property.WriteTo(cw)
